@@ -3,14 +3,14 @@
 import json, sys
 pid = sys.argv[1]
 mode = sys.argv[2] if len(sys.argv) > 2 else 'break'      # break | break2 | harmless
-root = {'break': '/tmp/seed', 'break2': '/tmp/seed2', 'break3': '/tmp/seed3', 'harmless': '/tmp/harmless'}[mode]
+root = {'break': '/tmp/seed', 'break2': '/tmp/seed2', 'break3': '/tmp/seed3', 'break4': '/tmp/seed4', 'harmless': '/tmp/harmless', 'harmless2': '/tmp/harmless2'}[mode]
 hints = ''
 for l in open('/verif/properties.jsonl'):
     p = json.loads(l)
     if p['id'] == pid:
         break
 import glob, os
-if mode in ('break2', 'break3'):
+if mode in ('break2', 'break3', 'break4'):
     used = []
     for d in sorted(glob.glob('/verif/seeded/%s-*' % pid)):
         try:
@@ -19,14 +19,41 @@ if mode in ('break2', 'break3'):
             used.append('- ' + (' '.join(sm) if isinstance(sm, list) else str(sm))[:300])
         except Exception:
             pass
+    for f in sorted(glob.glob('/tmp/r3/%s/meta*.json' % pid)):
+        try:
+            sm = json.load(open(f)).get('summary')
+            used.append('- ' + (' '.join(sm) if isinstance(sm, list) else str(sm))[:300])
+        except Exception:
+            pass
     hints = ('Other people have already tried the following ideas; do NOT repeat them or close variants, go for a different '
              'mechanism, a different function or a different clause of the property:\n' + '\n'.join(used) +
              '\nAim for subtle changes: ones that need a multi-step sequence of calls, state carried between calls, a rare branch, '
              'a particular combination of three or more options, a specific worker count or scheduling, or two or three '
              'cooperating edits that are each harmless alone.')
+    if mode == 'break4':
+        hints = hints.split('\nAim for subtle changes')[0] + (
+            '\nThis time aim for the MOST REALISTIC regressions, the kind that actually show up in commits: an off-by-one, a wrong '
+            'comparison operator, a wrong default, swapped or dropped arguments, a dropped or merged branch, the wrong axis, a '
+            'copy/paste of a sibling function, an "optimisation" that is not quite equivalent, a tolerance introduced where exactness '
+            'was needed (or the reverse) - in a function, code path or clause of the property that the ideas above did not touch. '
+            'The failing inputs must lie inside the quantifier given above.')
 files = ', '.join(p['anchors']['files'])
 mech = '; '.join(m['where'] for m in p['anchors']['mechanism'])
-if mode == 'harmless':
+hused = ''
+if mode == 'harmless2':
+    hu = []
+    for d in sorted(glob.glob('/verif/harmless/%s-*' % pid)):
+        try:
+            hu.append('- ' + str(json.load(open(os.path.join(d, 'meta.json'))).get('summary'))[:300])
+        except Exception:
+            pass
+    hused = ('Rewrites already tried by others (do NOT repeat them; pick other functions / other kinds of rewrite):\n' + '\n'.join(hu) +
+             '\nThis time prefer rewrites that change things a behaviour-only check must tolerate while the property (read its words '
+             'carefully) still holds: floating-point reassociation whose effect stays at rounding level (1e-12 relative), a different '
+             'but still appropriate exception class or message for INVALID inputs that the property does not talk about, renamed / '
+             'inlined / split PRIVATE helpers and changed internal call structure, reworded or added log messages, a different order '
+             'of dictionary keys, extra defensive copies, caching that is correctly invalidated, numpy idioms replaced by equivalent ones.\n')
+if mode in ('harmless', 'harmless2'):
     print(f"""You are helping to test a verification tool for FALSE ALARMS. Work ONLY inside the scratch git worktree {root}/{pid}/repo (a checkout of the Python library `emd`, AJQuinn/emd-mirror; Python interpreter: /venv/bin/python; run scripts with `cd {root}/{pid}/repo && PYTHONPATH={root}/{pid}/repo /venv/bin/python script.py` so that the worktree's code is imported — verify with `print(emd.__file__)`). Do not read or touch /verif or /repo. No network.
 
 Property (it holds for the library as it is, and must STILL hold after your changes):
@@ -36,6 +63,7 @@ The relevant code is in: {files} ({mech}).
 
 Your job: produce TWO independent, realistic HARMLESS rewrites of the code this property is anchored in — the kind of refactoring a maintainer does: restructure or vectorise a loop, replace an internal algorithm by an equivalent one, rename or split internal helpers, reorder independent statements, change how intermediate values are stored, tidy option handling — such that the library's observable behaviour relevant to the property is preserved (same results for valid inputs up to floating-point rounding at the 1e-12 level at most, same accepted/rejected inputs, same exception types where the property speaks about them). Do NOT change public function names, signatures or documented defaults. The rewrites should be substantial enough that a checker tied too closely to the current code text, to internal call sequences, to internal helper functions or to exact bit patterns could be confused, but they must not break the property. The existing test suite must still pass: `cd {root}/{pid}/repo && /venv/bin/python -m pytest -q -p no:cacheprovider --timeout=900` (38 tests pass on the unchanged tree).
 
+{hused}
 For each rewrite i in {{1,2}} deliver in {root}/{pid}/out/: `patch<i>.diff` (output of `git diff`, applicable with `git apply` to the unchanged tree), `demo<i>.py` (a small standalone program that checks the property's own words on several concrete inputs, including unusual ones, and exits 0 both with and without the rewrite), and `meta<i>.json` with keys: property ("{pid}"), summary, why_it_is_harmless, files_changed, commands_run. After producing each patch, restore the worktree with `git checkout -- .`. Leave the worktree clean at the end. Final message: a 10-line summary.""")
     sys.exit(0)
 print(f"""You are testing how well a semantic property of a Python library is protected. Work ONLY inside the scratch git worktree {root}/{pid}/repo (a checkout of the library `emd`, AJQuinn/emd-mirror; Python interpreter: /venv/bin/python; run scripts with `cd {root}/{pid}/repo && PYTHONPATH={root}/{pid}/repo /venv/bin/python script.py` so that the worktree's code is imported — verify with `print(emd.__file__)`). Do not read or touch /verif or /repo. No network.
